@@ -38,6 +38,56 @@ type Case struct {
 	InputForm bool        `json:",omitempty"` // fields sent as form body (POST) instead of query
 	Status    int         `json:",omitempty"`
 	Strict    bool        `json:",omitempty"` // replay with the strict (RFC 6265 cookie-octet) client model
+	GoPath    string      `json:",omitempty"` // path of the redirecting handler ("" = /go)
+	NextRedir bool        `json:",omitempty"` // the consuming handler answers with a redirect of its own (without messages)
+	NextPath  string      `json:",omitempty"` // path of the consuming handler ("" = /next); nested paths have a default cookie path other than "/"
+}
+
+func (c Case) goPath() string {
+	if c.GoPath == "" {
+		return "/go"
+	}
+	return c.GoPath
+}
+
+func (c Case) nextPath() string {
+	if c.NextPath == "" {
+		return "/next"
+	}
+	return c.NextPath
+}
+
+// cookiePath is the path under which an RFC 6265 client files the fiber_flash cookie of this response: the Path
+// attribute, or the default-path of the request URI when there is none (5.1.4).
+func cookiePath(raw []byte, requestPath string) string {
+	const p = "Set-Cookie: fiber_flash="
+	i := bytes.Index(raw, []byte(p))
+	if i >= 0 {
+		line := raw[i+len(p):]
+		if j := bytes.Index(line, []byte("\r\n")); j >= 0 {
+			line = line[:j]
+		}
+		lo := make([]byte, len(line)) // ASCII lower-casing keeps the offsets (the value is raw msgpack)
+		for k, ch := range line {
+			if 'A' <= ch && ch <= 'Z' {
+				ch += 'a' - 'A'
+			}
+			lo[k] = ch
+		}
+		if k := bytes.LastIndex(lo, []byte("; path=")); k >= 0 {
+			v := string(line[k+len("; path="):])
+			if e := strings.IndexByte(v, ';'); e >= 0 {
+				v = v[:e]
+			}
+			if strings.HasPrefix(v, "/") {
+				return v
+			}
+		}
+	}
+	if j := strings.LastIndexByte(requestPath, '/'); j > 0 {
+		return requestPath[:j]
+	}
+	return "/"
 }
 
 type seen struct {
@@ -58,11 +108,11 @@ func newApp(c Case, s *seen) *fiber.App {
 		if len(c.Input) > 0 {
 			r.WithInput()
 		}
-		return r.To("/next")
+		return r.To(c.nextPath())
 	}
-	app.Get("/go", goH)
-	app.Post("/go", goH)
-	app.Get("/next", func(ctx fiber.Ctx) error {
+	app.Get(c.goPath(), goH)
+	app.Post(c.goPath(), goH)
+	app.Get(c.nextPath(), func(ctx fiber.Ctx) error {
 		s.msgs, s.inputs = nil, nil
 		if ctx.Query("verifparse") == "1" {
 			fiber.VerifParseFlash(ctx) // in-process request: no raw header block, the request handler did not look for the cookie
@@ -75,6 +125,9 @@ func newApp(c Case, s *seen) *fiber.App {
 		}
 		sort.Strings(s.msgs)
 		sort.Strings(s.inputs)
+		if c.NextRedir {
+			return ctx.Redirect().To("/done") // e.g. a moved page or a login wall: consumes the messages, attaches none
+		}
 		return ctx.SendString("next")
 	})
 	return app
@@ -173,11 +226,11 @@ func check(c Case) vk.Verdict {
 		}
 	}
 	if c.InputForm && len(c.Input) > 0 {
-		req1 = vk.Req("POST", "/go", [][2]string{{"Content-Type", "application/x-www-form-urlencoded"}}, []byte(q.Encode()))
+		req1 = vk.Req("POST", c.goPath(), [][2]string{{"Content-Type", "application/x-www-form-urlencoded"}}, []byte(q.Encode()))
 	} else if len(c.Input) > 0 {
-		req1 = vk.Req("GET", "/go?"+q.Encode(), nil, nil)
+		req1 = vk.Req("GET", c.goPath()+"?"+q.Encode(), nil, nil)
 	} else {
-		req1 = vk.Req("GET", "/go", nil, nil)
+		req1 = vk.Req("GET", c.goPath(), nil, nil)
 	}
 	out1, err := vk.Wire(app, req1)
 	if err != nil {
@@ -189,7 +242,7 @@ func check(c Case) vk.Verdict {
 		if present && len(val) > 0 {
 			return vk.Failf("no messages were attached but the redirect sets a flash cookie %q", val)
 		}
-		out2, _ := vk.Wire(app, vk.Req("GET", "/next", nil, nil))
+		out2, _ := vk.Wire(app, vk.Req("GET", c.nextPath(), nil, nil))
 		_ = out2
 		if len(s.msgs)+len(s.inputs) != 0 {
 			return vk.Failf("request without cookie sees %v %v", s.msgs, s.inputs)
@@ -221,11 +274,11 @@ func check(c Case) vk.Verdict {
 		return checkInProcess(c, wantMsgs, wantInputs)
 	}
 	ck := [][2]string{{"Cookie", "fiber_flash=" + string(val)}}
-	out2, err := vk.Wire(app, vk.Req("GET", "/next", ck, nil))
+	out2, err := vk.Wire(app, vk.Req("GET", c.nextPath(), ck, nil))
 	if err != nil {
 		return vk.Failf("request 2: %v", err)
 	}
-	if !bytes.HasPrefix(out2, []byte("HTTP/1.1 200")) {
+	if !bytes.HasPrefix(out2, []byte("HTTP/1.1 200")) && !(c.NextRedir && bytes.HasPrefix(out2, []byte("HTTP/1.1 30"))) {
 		return vk.Failf("request 2 (cookie %q) answered %q", val, firstLine(out2))
 	}
 	if strings.Join(s.msgs, "|") != strings.Join(wantMsgs, "|") {
@@ -236,13 +289,19 @@ func check(c Case) vk.Verdict {
 	}
 	// response 2 must expire the cookie so that a conforming client presents the messages exactly once
 	_, present2, expired2 := flashCookie(out2)
+	if present2 && expired2 {
+		// a cookie is identified by name and path: the expiring Set-Cookie must address the cookie the client holds
+		if held, cleared := cookiePath(out1, c.goPath()), cookiePath(out2, c.nextPath()); held != cleared {
+			return vk.Failf("the response of %s that consumed the flash cookie expires a cookie with path %q, but the client holds it under path %q (issued by %s): a conforming client keeps it and presents the messages %v again", c.nextPath(), cleared, held, c.goPath(), s.msgs)
+		}
+	}
 	if !present2 || !expired2 {
-		out3, _ := vk.Wire(app, vk.Req("GET", "/next", ck, nil)) // the client still holds the cookie
+		out3, _ := vk.Wire(app, vk.Req("GET", c.nextPath(), ck, nil)) // the client still holds the cookie
 		_ = out3
 		return vk.Failf("the response that consumed the flash cookie does not expire it (Set-Cookie present=%v expired=%v); the client presents it again and the handler sees %v a second time", present2, expired2, s.msgs)
 	}
 	// request 3: cookie gone
-	if _, err := vk.Wire(app, vk.Req("GET", "/next", nil, nil)); err != nil {
+	if _, err := vk.Wire(app, vk.Req("GET", c.nextPath(), nil, nil)); err != nil {
 		return vk.Failf("request 3: %v", err)
 	}
 	if len(s.msgs)+len(s.inputs) != 0 {
@@ -250,7 +309,7 @@ func check(c Case) vk.Verdict {
 	}
 	// not-well-formed encodings: truncations of the issued value yield no messages
 	for cut := 1; cut < len(val); cut += 1 + len(val)/24 {
-		if _, err := vk.Wire(app, vk.Req("GET", "/next", [][2]string{{"Cookie", "fiber_flash=" + string(val[:cut])}}, nil)); err != nil {
+		if _, err := vk.Wire(app, vk.Req("GET", c.nextPath(), [][2]string{{"Cookie", "fiber_flash=" + string(val[:cut])}}, nil)); err != nil {
 			return vk.Failf("truncated cookie %q: %v", val[:cut], err)
 		}
 		if len(s.msgs)+len(s.inputs) != 0 {
@@ -314,11 +373,11 @@ func checkInProcess(c Case, wantMsgs, wantInputs []string) vk.Verdict {
 	}
 	var r1 *fasthttp.RequestCtx
 	if c.InputForm && len(c.Input) > 0 {
-		r1 = vk.DoAddr(app, nil, "POST", "/go", []byte(q.Encode()), "Content-Type", "application/x-www-form-urlencoded")
+		r1 = vk.DoAddr(app, nil, "POST", c.goPath(), []byte(q.Encode()), "Content-Type", "application/x-www-form-urlencoded")
 	} else if len(c.Input) > 0 {
-		r1 = vk.DoAddr(app, nil, "GET", "/go?"+q.Encode(), nil)
+		r1 = vk.DoAddr(app, nil, "GET", c.goPath()+"?"+q.Encode(), nil)
 	} else {
-		r1 = vk.DoAddr(app, nil, "GET", "/go", nil)
+		r1 = vk.DoAddr(app, nil, "GET", c.goPath(), nil)
 	}
 	raw := r1.Response.Header.PeekCookie("fiber_flash")
 	if len(raw) == 0 {
@@ -331,7 +390,7 @@ func checkInProcess(c Case, wantMsgs, wantInputs []string) vk.Verdict {
 	deliver := func(withCookie bool) *fasthttp.RequestCtx {
 		var req fasthttp.Request
 		req.Header.SetMethod("GET")
-		req.SetRequestURI("/next?verifparse=1")
+		req.SetRequestURI(c.nextPath() + "?verifparse=1")
 		if withCookie {
 			req.Header.SetCookieBytesKV([]byte("fiber_flash"), val)
 		}
@@ -341,7 +400,7 @@ func checkInProcess(c Case, wantMsgs, wantInputs []string) vk.Verdict {
 		return ctx
 	}
 	r2 := deliver(true)
-	if r2.Response.StatusCode() != 200 {
+	if r2.Response.StatusCode() != 200 && !(c.NextRedir && r2.Response.StatusCode()/10 == 30) {
 		return vk.Failf("in process: request 2 answered %d", r2.Response.StatusCode())
 	}
 	if strings.Join(s.msgs, "|") != strings.Join(wantMsgs, "|") {
@@ -400,7 +459,9 @@ func genStr(t *rapid.T, label string) string {
 }
 
 func genCase(t *rapid.T) Case {
-	c := Case{Status: rapid.SampledFrom([]int{0, 0, 301, 303, 307}).Draw(t, "status"), Strict: rapid.IntRange(0, 9).Draw(t, "strict") == 0}
+	c := Case{Status: rapid.SampledFrom([]int{0, 0, 301, 303, 307}).Draw(t, "status"), Strict: rapid.IntRange(0, 9).Draw(t, "strict") == 0,
+		NextRedir: rapid.IntRange(0, 3).Draw(t, "nextredir") == 0,
+		GoPath:    rapid.SampledFrom([]string{"", "", "/area/go", "/a/b/c/go"}).Draw(t, "gopath"), NextPath: rapid.SampledFrom([]string{"", "", "/app/next/deep", "/users/42/edit"}).Draw(t, "nextpath")}
 	n := rapid.IntRange(0, 5).Draw(t, "nmsgs")
 	for i := 0; i < n; i++ {
 		m := Msg{K: genStr(t, "key"), V: genStr(t, "val")}
